@@ -85,4 +85,6 @@ MUTANTS = [
         elif self.op in ('IN', 'NOT IN'):""")]},
     {"id": "c15-n-listcomp-join", "expect": "silent", "edits": [(F, """", ".join(sql_clauses['PLACEHOLDER'] for _ in self.value)""", """", ".join([sql_clauses['PLACEHOLDER'] for _ in self.value])""")]},
     {"id": "c15-n-debug-log", "expect": "silent", "edits": [(F, "        sql_clauses = self._SQL_CLAUSES[placeholders_type]\n", "        sql_clauses = self._SQL_CLAUSES[placeholders_type]\n        logger.debug('condition %s %s %r', self.field_name, self.op, self.value)\n")]},
+    {"id": "c15-value-becomes-operator", "expect": "fire", "edits": [(F, "            field_name, value = src_obj\n            op = '='\n", "            field_name, value = src_obj\n            op = '='\n            if isinstance(value, str) and value.upper() in ('IS NULL', 'IS NOT NULL'):\n                op, value = value, None\n")]},
+    {"id": "c15-n-factory-op-constant-first", "expect": "silent", "edits": [(F, "            field_name, value = src_obj\n            op = '='\n", "            op = '='\n            field_name, value = src_obj\n")]},
 ]
